@@ -290,7 +290,29 @@ def s3(tier):
     fmt = dict(fm0, TA=TA)
     dd.append(([TA, window('N', ['TA'], fmt, 2, same, kind='window', start=None)], 'N'))
     dd.append(([TA, within('V', ['TA', 'B'], fmt, same)], 'V'))
+    # two independent complex-window factors in one design (one of them is implied in most placements)
+    TB = window('TB', ['B'], fm0, 2, same, kind='transition', start=1)
+    NB = window('NB', ['B'], fm0, 2, repeat_last2, stride=2, start=None)
+    dd.append(([TA, TB], 'TB'))
+    dd.append(([TB, TA], 'TB'))
+    dd.append(([NB, TA], 'TA'))
+    # a window over TWO factors with an early start (None-padded inputs for both)
+    for fn in (lambda k: 0 if (k[2] == k[3] and '~' not in k) else None,          # "B repeats"
+               lambda k: 0 if k[0] == '~' else None):                             # "is the first trial"
+        dd.append(([window('N', ['A', 'B'], fm0, 2, fn, stride=1, start=0, else_idx=1, dep_none=True)], 'N'))
     cases = [([w], 'N') for w in wins] + dd
+    # two within-trial derived factors crossed together (both restrict the source combinations)
+    W1 = within('W', ['A', 'B'], fm0, same)
+    W2 = within('V', ['A', 'B'], fm0, first_is_0)
+    W3 = within('V', ['A', 'B'], fm0, lambda k: 0 if k[1][-1] == '0' else 1)
+    two = []
+    for Wb in (W2, W3):
+        fs2 = [A, B, W1, Wb]
+        for cr in (['W', 'V'], ['A', 'W', 'V'], ['B', 'V'], ['W']):
+            for cs in ([], [{'c': 'MinimumTrials', 'k': 5}], [{'c': 'AtMostKInARow', 'k': 1, 'factor': 'V', 'level': 'v0'}]):
+                for rcc in (True, False):
+                    two.append(spec(fs2, cross(['A', 'B', 'W', 'V'], cr, cs, rcc), 'S3'))
+    out += two
     for extra, top in cases:
         factors = [A, B] + extra
         fm = {f['name']: f for f in factors}
@@ -442,6 +464,23 @@ def s6(tier):
             factors = fo + [f for f in fi if f not in fo]
             for cs in nest_cons:
                 out.append(spec(factors, {'op': 'nest', 'outer': bo, 'inner': bi, 'constraints': cs}, 'S6'))
+    # inner / outer blocks with a hidden weight factor or an implied derived factor
+    Aw = basic('A', 2, [2, 1])
+    fmw = {'A': A, 'B': B}
+    Wd = within('W', ['A', 'B'], fmw, same)
+    for fi, bi in (([Aw, B], cross(['A', 'B'], ['B'])), ([A, B, Wd], cross(['A', 'B', 'W'], ['A'])), ([Aw, B], cross(['A', 'B'], ['A']))):
+        for (fo, bo) in outers[:2]:
+            out.append(spec(fo + fi, {'op': 'nest', 'outer': bo, 'inner': bi, 'constraints': []}, 'S6'))
+        out.append(spec(fi + [O], {'op': 'nest', 'outer': bi, 'inner': cross(['O'], ['O']), 'constraints': []}, 'S6'))
+    # MinimumTrials on the Nest / on the inner block with an inner run of 3 trials (rounding up to whole inner runs)
+    for k in (5, 7, 8, 10):
+        out.append(spec([O, C], {'op': 'nest', 'outer': cross(['O'], ['O']), 'inner': cross(['C'], ['C']),
+                                 'constraints': [{'c': 'MinimumTrials', 'k': k}]}, 'S6'))
+    for k in (4, 5):
+        out.append(spec([O, C], {'op': 'nest', 'outer': cross(['O'], ['O']), 'inner': cross(['C'], ['C'], [{'c': 'MinimumTrials', 'k': k}]),
+                                 'constraints': []}, 'S6'))
+        out.append(spec([O, C], {'op': 'nest', 'outer': cross(['O'], ['O'], [{'c': 'MinimumTrials', 'k': k - 1}]), 'inner': cross(['C'], ['C']),
+                                 'constraints': []}, 'S6'))
     # Sequential on the outer factor (sustained cycle), constraint given to the Nest
     out.append(spec([O, A], {'op': 'nest', 'outer': cross(['O'], ['O']), 'inner': cross(['A'], ['A']),
                              'constraints': [{'c': 'Sequential', 'factor': 'O'}]}, 'S6'))
